@@ -56,6 +56,8 @@ pub struct CommitOracle {
 	/// numbers of the commitment_signed messages sitting in each directed FIFO
 	queued: BTreeMap<(usize, usize), VecDeque<u64>>,
 	delivered_commits: BTreeMap<(usize, usize), u64>,
+	/// holder commitment txids that existed when the oracle was attached (signed during channel establishment)
+	initial_holder_txids: Vec<Txid>,
 	pub stats: CommitStats,
 	/// expected benign closures (cooperative close requested by the harness) per channel
 	pub coop_close_requested: Vec<bool>,
@@ -88,6 +90,16 @@ impl CommitOracle {
 			}));
 		}
 		let n = sim.chans.len();
+		let mut initial_holder_txids = vec![];
+		for c in sim.chans.iter() {
+			for node in [c.a, c.b] {
+				if let Ok(mon) = sim.w.nodes[node].chain_monitor.chain_monitor.get_monitor(c.id) {
+					if let Some(tx) = mon.unsafe_get_latest_holder_commitment_txn(&sim.w.nodes[node].logger).first() {
+						initial_holder_txids.push(tx.compute_txid());
+					}
+				}
+			}
+		}
 		CommitOracle {
 			models,
 			cur_h: hist_len(),
@@ -97,6 +109,7 @@ impl CommitOracle {
 			signed: BTreeMap::new(),
 			queued: BTreeMap::new(),
 			delivered_commits: BTreeMap::new(),
+			initial_holder_txids,
 			stats: CommitStats::default(),
 			coop_close_requested: vec![false; n],
 			allow_force_close: false,
@@ -260,7 +273,7 @@ impl CommitOracle {
 						if let Some(first) = txs.first() {
 							self.stats.agreement_checks += 1;
 							let got = first.compute_txid();
-							let known = self.signed.iter().any(|((c2, s2, _), t)| *c2 == chan && *s2 == side && *t == got);
+							let known = self.initial_holder_txids.contains(&got) || self.signed.iter().any(|((c2, s2, _), t)| *c2 == chan && *s2 == side && *t == got);
 							if !known {
 								return Err(fail(
 									"peer-disagreement",
